@@ -1,17 +1,12 @@
 (* FloatRepr.v — the float reread from its repr denotes the same rational:
    parse_float_literal (float_repr n) = Ok (FFloat n')  ->  num_eqb n n' = true. *)
-From JP Require Import Base Json PyStr Syntax Lex Parse Serialize PyStrLemmas.
+From JP Require Import Base Json PyStr Syntax Lex Parse Serialize PyStrLemmas ParseEqns.
 Local Open Scope Z_scope.
 
 Lemma parse_float_is_float t e : parse_float_literal t = Ok e -> exists n', e = FFloat n'.
 Proof.
-  unfold parse_float_literal. destruct (split_number t) as [[[[neg ip] fp] ex]|]; [|discriminate].
-  destruct (Z.leb 400 ex); [discriminate|].
-  destruct (Nat.ltb 15 (length ip + length fp) || Z.ltb 20 ex || Z.ltb ex (-20)); [discriminate|].
-  destruct (Z.leb 0 (ex - Z.of_nat (length fp))).
-  - intros H. injection H as <-. eauto.
-  - destruct (pow10 (Z.to_nat (- (ex - Z.of_nat (length fp))))); try discriminate.
-    intros H. injection H as <-. eauto.
+  intros H. destruct (parse_float_literal_cases t) as [H'|[H'|[n H']]]; rewrite H' in H;
+    try discriminate H. injection H as <-. eauto.
 Qed.
 
 (* ---------------------------------------------------------------------- *)
@@ -156,45 +151,28 @@ Proof.
   destruct eneg; rewrite Het; reflexivity.
 Qed.
 
-(* what parse_float_literal computes from the split *)
-Lemma parse_float_of_split s neg ip fp ex n' :
-  split_number s = Some (neg, ip, fp, ex) -> parse_float_literal s = Ok (FFloat n') ->
-  let mant := dec_value (ip ++ fp) in
-  let e10 := ex - Z.of_nat (length fp) in
-  let smant := if neg then - mant else mant in
-  (0 <= e10 /\ n' = mkNum true (smant * pow10 (Z.to_nat e10)) 1) \/
-  (e10 < 0 /\ exists p, pow10 (Z.to_nat (- e10)) = Zpos p /\ n' = mkNum true smant p).
+(* significant digits *)
+Lemma drop_zeros_split s : exists j, s = repeat 48%N j ++ drop_zeros s.
 Proof.
-  intros Hs Hp. unfold parse_float_literal in Hp. rewrite Hs in Hp.
-  destruct (Z.leb 400 ex); [discriminate|].
-  destruct (Nat.ltb 15 (length ip + length fp) || Z.ltb 20 ex || Z.ltb ex (-20)); [discriminate|].
-  cbv zeta. destruct (Z.leb_spec 0 (ex - Z.of_nat (length fp))) as [He|He].
-  - left. split; auto. congruence.
-  - right. split; auto.
-    destruct (pow10 (Z.to_nat (- (ex - Z.of_nat (length fp))))) as [|p|p] eqn:Epw; try discriminate.
-    exists p. split; auto. congruence.
+  induction s as [|c s [j IH]]; [exists 0%nat; reflexivity|]. cbn [drop_zeros].
+  destruct (N.eqb_spec c 48) as [->|Hc]; [exists (S j); cbn [repeat app]; f_equal; exact IH|exists 0%nat; reflexivity].
 Qed.
 
-(* the arithmetic: mantissa m*10^j at exponent z-k-j is m*10^z / 10^k *)
-Lemma value_final (n n' : num) (neg : bool) m z k j mant e10 :
-  n_num n = (if neg then - (m * 10 ^ z) else m * 10 ^ z) -> Zpos (n_den n) = 10 ^ k ->
-  0 <= z -> 0 <= k -> 0 <= j -> mant = m * 10 ^ j -> e10 = z - k - j ->
-  ((0 <= e10 /\ n' = mkNum true ((if neg then - mant else mant) * pow10 (Z.to_nat e10)) 1) \/
-   (e10 < 0 /\ exists p, pow10 (Z.to_nat (- e10)) = Zpos p /\ n' = mkNum true (if neg then - mant else mant) p)) ->
-  num_eqb n n' = true.
+Lemma rev_repeat {A} (x : A) j : rev (repeat x j) = repeat x j.
 Proof.
-  intros Hn Hd Hz Hk Hj Hm He H. unfold num_eqb. apply Z.eqb_eq.
-  destruct H as [[Hge ->]|[Hlt [p [Hp ->]]]]; cbn [n_num n_den]; rewrite Hn, Hd, ?pow10_pow.
-  - rewrite Z2Nat.id by lia. subst mant e10.
-    assert (E : 10 ^ z = 10 ^ j * 10 ^ (z - k - j) * 10 ^ k).
-    { rewrite <- !Z.pow_add_r by lia. f_equal. lia. }
-    destruct neg; rewrite E; ring.
-  - rewrite <- Hp, pow10_pow, Z2Nat.id by lia. subst mant e10.
-    assert (E : 10 ^ z * 10 ^ (- (z - k - j)) = 10 ^ j * 10 ^ k).
-    { rewrite <- !Z.pow_add_r by lia. f_equal. lia. }
-    destruct neg.
-    + transitivity (- (m * (10 ^ z * 10 ^ (- (z - k - j))))); [ring|]. rewrite E. ring.
-    + transitivity (m * (10 ^ z * 10 ^ (- (z - k - j)))); [ring|]. rewrite E. ring.
+  induction j as [|j IH]; [reflexivity|]. cbn [repeat rev]. rewrite IH.
+  clear IH. induction j as [|j IH]; [reflexivity|]. cbn [repeat app]. f_equal. exact IH.
+Qed.
+
+Lemma sig_digits_split D ds tz :
+  sig_digits D = (ds, tz) -> exists lz, D = repeat 48%N lz ++ ds ++ repeat 48%N tz.
+Proof.
+  unfold sig_digits. intros H. injection H as Hds Htz. rewrite Hds in Htz.
+  destruct (drop_zeros_split D) as [lz HD]. destruct (drop_zeros_split (rev (drop_zeros D))) as [j Hr].
+  assert (Ha : drop_zeros D = ds ++ repeat 48%N j).
+  { rewrite <- (rev_involutive (drop_zeros D)), Hr, rev_app_distr, rev_repeat, Hds. reflexivity. }
+  exists lz. rewrite HD at 1. f_equal. rewrite Ha. f_equal. f_equal.
+  rewrite Ha, app_length, repeat_length in Htz. lia.
 Qed.
 
 Lemma dec_value_lead_zeros j ds : dec_value (repeat 48%N j ++ ds) = dec_value ds.
@@ -202,6 +180,80 @@ Proof. rewrite dec_value_app, dec_value_zeros. lia. Qed.
 
 Lemma dec_value_trail_zeros ds j : dec_value (ds ++ repeat 48%N j) = dec_value ds * 10 ^ Z.of_nat j.
 Proof. rewrite dec_value_app, dec_value_zeros, repeat_length, pow10_pow. lia. Qed.
+
+Lemma sig_digits_value D ds tz : sig_digits D = (ds, tz) -> dec_value D = dec_value ds * 10 ^ Z.of_nat tz.
+Proof.
+  intros H. destruct (sig_digits_split D ds tz H) as [lz ->].
+  rewrite dec_value_lead_zeros, dec_value_trail_zeros. reflexivity.
+Qed.
+
+(* what parse_float_literal computes from the split *)
+Lemma parse_float_of_split s neg ip fp ex n' :
+  split_number s = Some (neg, ip, fp, ex) -> parse_float_literal s = Ok (FFloat n') ->
+  (dec_value (ip ++ fp) = 0 /\ n' = mkNum true 0 1) \/
+  exists mant tz, 0 <= tz /\ dec_value (ip ++ fp) = mant * 10 ^ tz /\
+    let e10 := tz + ex - Z.of_nat (length fp) in
+    let smant := if neg then - mant else mant in
+    (0 <= e10 /\ n' = mkNum true (smant * pow10 (Z.to_nat e10)) 1) \/
+    (e10 < 0 /\ exists p, pow10 (Z.to_nat (- e10)) = Zpos p /\ n' = mkNum true smant p).
+Proof.
+  intros Hs Hp. unfold parse_float_literal in Hp. rewrite Hs in Hp.
+  destruct (sig_digits (ip ++ fp)) as [ds tz] eqn:Hsig. pose proof (sig_digits_value _ _ _ Hsig) as Hval.
+  destruct ds as [|d ds'].
+  - left. split; [rewrite Hval; reflexivity|congruence].
+  - right. exists (dec_value (d :: ds')), (Z.of_nat tz). split; [lia|]. split; [exact Hval|].
+    cbv zeta in Hp |- *. destruct (Z.leb 310 _); [discriminate|]. destruct (_ || _); [discriminate|].
+    unfold mk_float in Hp.
+    destruct (Z.leb_spec 0 (Z.of_nat tz + ex - Z.of_nat (length fp))) as [He|He].
+    + left. split; auto. congruence.
+    + right. split; auto.
+      destruct (pow10 (Z.to_nat (- (Z.of_nat tz + ex - Z.of_nat (length fp))))) as [|p|p] eqn:Epw; try discriminate.
+      exists p. split; auto. congruence.
+Qed.
+
+(* the arithmetic: mantissa with mant*10^tz = m*10^j at exponent z-k-j+tz is m*10^z / 10^k *)
+Lemma value_final (n n' : num) (neg : bool) m z k j mant tz e10 :
+  n_num n = (if neg then - (m * 10 ^ z) else m * 10 ^ z) -> Zpos (n_den n) = 10 ^ k ->
+  0 <= z -> 0 <= k -> 0 <= j -> 0 <= tz -> mant * 10 ^ tz = m * 10 ^ j -> e10 = z - k - j + tz ->
+  ((0 <= e10 /\ n' = mkNum true ((if neg then - mant else mant) * pow10 (Z.to_nat e10)) 1) \/
+   (e10 < 0 /\ exists p, pow10 (Z.to_nat (- e10)) = Zpos p /\ n' = mkNum true (if neg then - mant else mant) p)) ->
+  num_eqb n n' = true.
+Proof.
+  intros Hn Hd Hz Hk Hj Htz Hm He H. unfold num_eqb. apply Z.eqb_eq.
+  assert (Hnz : 10 ^ tz * 10 ^ j <> 0) by (apply Z.neq_mul_0; split; apply Z.pow_nonzero; lia).
+  destruct H as [[Hge ->]|[Hlt [p [Hp ->]]]]; cbn [n_num n_den]; rewrite Hn, Hd, ?pow10_pow.
+  - rewrite Z2Nat.id by lia. subst e10.
+    apply (Z.mul_cancel_r _ _ _ Hnz).
+    assert (E1 : 10 ^ (z - k - j + tz) * 10 ^ k * 10 ^ j = 10 ^ z * 10 ^ tz).
+    { rewrite <- !Z.pow_add_r by lia. f_equal. lia. }
+    destruct neg.
+    + transitivity (- (m * 10 ^ j * (10 ^ z * 10 ^ tz))); [ring|]. rewrite <- Hm, <- E1. ring.
+    + transitivity (m * 10 ^ j * (10 ^ z * 10 ^ tz)); [ring|]. rewrite <- Hm, <- E1. ring.
+  - rewrite <- Hp, pow10_pow, Z2Nat.id by lia. subst e10.
+    apply (Z.mul_cancel_r _ _ _ Hnz).
+    assert (E1 : 10 ^ z * 10 ^ (- (z - k - j + tz)) * 10 ^ tz = 10 ^ k * 10 ^ j).
+    { rewrite <- !Z.pow_add_r by lia. f_equal. lia. }
+    destruct neg.
+    + transitivity (- (m * 10 ^ j * (10 ^ z * 10 ^ (- (z - k - j + tz)) * 10 ^ tz))); [ring|].
+      rewrite E1, <- Hm. ring.
+    + transitivity (m * 10 ^ j * (10 ^ z * 10 ^ (- (z - k - j + tz)) * 10 ^ tz)); [ring|].
+      rewrite E1, <- Hm. ring.
+Qed.
+
+(* one layout of the repr: from the split of the text to the value *)
+Lemma reread_case (n n' : num) (neg : bool) m z k j s ip fp ex :
+  n_num n = (if neg then - (m * 10 ^ z) else m * 10 ^ z) -> Zpos (n_den n) = 10 ^ k ->
+  0 <= z -> 0 <= k -> 0 <= j -> 0 < m ->
+  split_number s = Some (neg, ip, fp, ex) -> parse_float_literal s = Ok (FFloat n') ->
+  dec_value (ip ++ fp) = m * 10 ^ j -> ex - Z.of_nat (length fp) = z - k - j ->
+  num_eqb n n' = true.
+Proof.
+  intros Hn Hd Hz Hk Hj Hm Hs Hp Hv He.
+  destruct (parse_float_of_split _ _ _ _ _ _ Hs Hp) as [[H0 _]|(mant & tz & Htz & Hval & Hform)].
+  - exfalso. rewrite Hv in H0. assert (0 < 10 ^ j) by (apply Z.pow_pos_nonneg; lia). nia.
+  - cbv zeta in Hform.
+    eapply (value_final n n' neg m z k j mant tz _ Hn Hd Hz Hk Hj Htz); [| |exact Hform]; [congruence|lia].
+Qed.
 
 Lemma all_digits_of ds : ds <> [] -> forallb is_ascii_digit ds = true -> all_digits ds = true.
 Proof. intros Hne H. destruct ds; [contradiction|]. exact H. Qed.
@@ -237,8 +289,7 @@ Proof.
         injection Hr as <-.
         pose proof (split_plain neg [48%N] (repeat 48%N (Z.to_nat (- pt)) ++ digits)) as Hs.
         rewrite forallb_app, zeros_digits, Hdig in Hs. specialize (Hs ltac:(discriminate) eq_refl eq_refl).
-        pose proof (parse_float_of_split _ _ _ _ _ _ Hs Hp) as Hv. cbv zeta in Hv.
-        eapply (value_final n n' neg m z k 0 _ _ Hnum Hden Hz Hk (Z.le_refl 0)); [| |exact Hv].
+        eapply (reread_case n n' neg m z k 0 _ _ _ _ Hnum Hden Hz Hk (Z.le_refl 0) Hm Hs Hp).
         -- change ([48%N] ++ repeat 48%N (Z.to_nat (- pt)) ++ digits)
              with (repeat 48%N (S (Z.to_nat (- pt))) ++ digits).
            rewrite dec_value_lead_zeros, Hval. cbn. lia.
@@ -249,8 +300,7 @@ Proof.
            pose proof (split_plain neg (digits ++ repeat 48%N (Z.to_nat (pt - nd))) [48%N]) as Hs.
            rewrite forallb_app, zeros_digits, Hdig in Hs.
            rewrite <- app_assoc in Hs. specialize (Hs ltac:(destruct digits; [contradiction|discriminate]) eq_refl eq_refl).
-           pose proof (parse_float_of_split _ _ _ _ _ _ Hs Hp) as Hv. cbv zeta in Hv.
-           eapply (value_final n n' neg m z k (pt - nd + 1) _ _ Hnum Hden Hz Hk ltac:(lia)); [| |exact Hv].
+           eapply (reread_case n n' neg m z k (pt - nd + 1) _ _ _ _ Hnum Hden Hz Hk ltac:(lia) Hm Hs Hp).
            ++ rewrite <- app_assoc.
               change (repeat 48%N (Z.to_nat (pt - nd)) ++ [48%N]) with (repeat 48%N (Z.to_nat (pt - nd)) ++ repeat 48%N 1).
               rewrite <- repeat_app, dec_value_trail_zeros, Hval. f_equal. f_equal. lia.
@@ -266,8 +316,7 @@ Proof.
            assert (Hfne : firstn (Z.to_nat pt) digits <> []).
            { destruct digits; [contradiction|]. destruct (Z.to_nat pt) eqn:E; [lia|discriminate]. }
            specialize (Hs Hfne Hf1 Hf2).
-           pose proof (parse_float_of_split _ _ _ _ _ _ Hs Hp) as Hv. cbv zeta in Hv.
-           eapply (value_final n n' neg m z k 0 _ _ Hnum Hden Hz Hk (Z.le_refl 0)); [| |exact Hv].
+           eapply (reread_case n n' neg m z k 0 _ _ _ _ Hnum Hden Hz Hk (Z.le_refl 0) Hm Hs Hp).
            ++ rewrite firstn_skipn, Hval. cbn. lia.
            ++ rewrite skipn_length. unfold pt, nd in *. lia.
     + (* d.ddde+xx *)
@@ -295,15 +344,13 @@ Proof.
         pose proof (split_exp neg [d] [48%N] eneg etxt) as Hs.
         specialize (Hs ltac:(discriminate)). cbn [forallb] in Hs. rewrite Hd in Hs.
         specialize (Hs eq_refl eq_refl Het1). rewrite Hex in Hs.
-        pose proof (parse_float_of_split _ _ _ _ _ _ Hs Hp) as Hv. cbv zeta in Hv.
-        eapply (value_final n n' neg m z k 1 _ _ Hnum Hden Hz Hk ltac:(lia)); [| |exact Hv].
+        eapply (reread_case n n' neg m z k 1 _ _ _ _ Hnum Hden Hz Hk ltac:(lia) Hm Hs Hp).
         -- change ([d] ++ [48%N]) with ([d] ++ repeat 48%N 1). rewrite dec_value_trail_zeros, Hval. reflexivity.
         -- cbn [length]. unfold e, pt, nd in *. cbn [length] in *. lia.
       * pose proof (split_exp neg [d] (d2 :: rest') eneg etxt) as Hs.
         specialize (Hs ltac:(discriminate)). cbn [forallb] in Hs. rewrite Hd in Hs.
         specialize (Hs eq_refl Hrest Het1). rewrite Hex in Hs.
-        pose proof (parse_float_of_split _ _ _ _ _ _ Hs Hp) as Hv. cbv zeta in Hv.
-        eapply (value_final n n' neg m z k 0 _ _ Hnum Hden Hz Hk (Z.le_refl 0)); [| |exact Hv].
+        eapply (reread_case n n' neg m z k 0 _ _ _ _ Hnum Hden Hz Hk (Z.le_refl 0) Hm Hs Hp).
         -- change ([d] ++ d2 :: rest') with (d :: d2 :: rest'). rewrite Hval. cbn. lia.
         -- unfold e, pt, nd in *. cbn [length] in *. lia.
 Qed.
